@@ -249,6 +249,16 @@ class DataConnection(Connection, abc.ABC):
             raise
 
         else:
+            if self.state != ConnectionState.CONNECTING:
+                # The connection was disconnected while connecting: it should
+                # not go back to the CONNECTED state
+                adapter.debug("disconnected while connecting", extra=self.__dict__)
+                writer, self._reader, self._writer = self._writer, None, None
+                if writer is not None:
+                    writer.close()
+                raise ConnectionFailedError(
+                    f"{self.hostname}:{self.port} : disconnected while connecting")
+
             adapter.debug("connected", extra=self.__dict__)
             await self.set_state(ConnectionState.CONNECTED)
 
